@@ -44,12 +44,16 @@ var scratch string
 func main() {
 	run := vr.New("C12", "model_checking")
 	var err error
-	scratch, err = os.MkdirTemp("", "verif-c12-")
+	base := ""
+	if fi, e := os.Stat("/dev/shm"); e == nil && fi.IsDir() {
+		base = "/dev/shm" // memory-backed: thousands of small store/load histories
+	}
+	scratch, err = os.MkdirTemp(base, "verif-c12-")
 	if err != nil {
 		vr.HarnessError("scratch dir: %v", err)
 	}
 	defer os.RemoveAll(scratch)
-	run.Rule("(a) full product of key x hash x salt x hostname alphabets stored and loaded by the same and by a fresh loader; (b) explicit-state search over all histories of {Store(s1), Store(s2), Load@same, Load@fresh} x {file mtime advances, stays equal} up to depth 4 (thorough 6), every history executed (the canonical key (file content, cached session, cache-valid bit) only counts distinct states), against the model 'last store wins'; (c) every prefix length of the stored file as a crash point; (d) path forms; (e) resume of the real client on a stored session against the reference server; non-trivial = distinct case in which a Load was compared with the model")
+	run.Rule("(a) full product of key x hash x salt x hostname alphabets stored and loaded by the same and by a fresh loader; (b) explicit-state search over all histories of {Store(s1), Store(s2), Load} through loader A, Store/Load through a second long-lived loader B, Load through a fresh loader, removal of the file, x {file mtime advances, stays equal} up to depth 4 (thorough 6), every history executed (the canonical key (file content, cached session, cache-valid bit) only counts distinct states), against the model 'last store wins'; (c) every prefix length of the stored file as a crash point; (d) path forms; (e) resume of the real client on a stored session against the reference server; non-trivial = distinct case in which a Load was compared with the model")
 	run.Assume("the modification time the loader sees after a Store is owned by the harness (os.Chtimes), which reproduces 'two stores within one timestamp granule' deterministically",
 		"no state merging is used for pruning: the history tree is executed completely to the stated depth")
 	values(run)
@@ -153,17 +157,25 @@ func replay(dir string, hist []op) hstate {
 	path := filepath.Join(dir, "session.json")
 	os.Remove(path)
 	l := session.NewFromFile(path)
+	lB := session.NewFromFile(path)
 	var model *session.Session
 	mtime := time.Unix(1600000000, 0)
 	var st hstate
 	for i, o := range hist {
 		switch o.kind {
-		case "store1", "store2":
+		case "remove":
+			os.Remove(path)
+			model = nil
+		case "store1", "store2", "storeB1", "storeB2":
 			s := s1
-			if o.kind == "store2" {
+			if strings.HasSuffix(o.kind, "2") {
 				s = s2
 			}
-			if err := l.Store(s); err != nil {
+			target := l
+			if strings.HasPrefix(o.kind, "storeB") {
+				target = lB
+			}
+			if err := target.Store(s); err != nil {
 				st.bad = fmt.Sprintf("step %d %s: %v", i, o, err)
 				return st
 			}
@@ -172,10 +184,12 @@ func replay(dir string, hist []op) hstate {
 			}
 			os.Chtimes(path, mtime, mtime)
 			model = s
-		case "loadSame", "loadFresh":
+		case "loadSame", "loadFresh", "loadB":
 			ld := l
 			if o.kind == "loadFresh" {
 				ld = session.NewFromFile(path)
+			} else if o.kind == "loadB" {
+				ld = lB
 			}
 			got, err := ld.Load()
 			st.compared++
@@ -212,7 +226,9 @@ func histories(run *vr.Run) {
 	}
 	dir := filepath.Join(scratch, "hist")
 	os.MkdirAll(dir, 0o755)
-	alphabet := []op{{"store1", false}, {"store1", true}, {"store2", false}, {"store2", true}, {"loadSame", false}, {"loadFresh", false}}
+	// two long-lived loaders A ("same") and B on one path, fresh loaders, and the file disappearing
+	alphabet := []op{{"store1", false}, {"store1", true}, {"store2", false}, {"store2", true}, {"loadSame", false}, {"loadFresh", false},
+		{"storeB1", false}, {"storeB2", true}, {"loadB", false}, {"remove", false}}
 	// the whole tree is executed (no pruning); the canonical key only counts distinct states
 	seen := map[string]bool{replay(dir, nil).key: true}
 	states, transitions, maxDepth := 1, 0, 0
